@@ -70,7 +70,9 @@ def run_group(mdir, g, tier_cfgs=()):
     resfile = os.path.join(mdir, f"res-{g.name}.json")
     if os.path.exists(resfile):
         os.remove(resfile)
-    cmd = ["cargo", "kani", "-Z", "stubbing", "-Z", "unstable-options", "--output-format", "terse",
+    # --no-assertion-reach-checks: Kani's per-assertion reachability instrumentation makes CBMC emit a trace for every
+    # reachable assertion (hundreds of MB of JSON per harness); vacuity is guarded by cover!("reached") + witnesses instead
+    cmd = ["cargo", "kani", "-Z", "stubbing", "-Z", "unstable-options", "--no-assertion-reach-checks", "--output-format", "terse",
            "-j", str(g.jobs), "--harness-timeout", f"{g.harness_timeout}s", "--export-json", resfile]
     if g.features:
         cmd += ["--features", ",".join(g.features)]
@@ -113,8 +115,8 @@ def run_group(mdir, g, tier_cfgs=()):
                                        "line": c.get("location", {}).get("line", "")})
             elif st in ("Undetermined", "SolverError"):
                 info["undetermined"] += 1
-            elif st == "Success" and cat == "assertion" and desc.startswith('"C'):
-                info["tags_ok"].append(desc.strip('"'))
+            elif st == "Success" and cat == "assertion" and norm_desc(desc).startswith('"C'):
+                info["tags_ok"].append(norm_desc(desc).strip('"'))
         res["harnesses"][hid] = info
     for h in listed:
         if h not in res["harnesses"]:
@@ -140,11 +142,20 @@ def strip_warnings(out):
     return "\n".join(keep)
 
 
+def norm_desc(d):
+    """`concat! ("C05.a@", "80")` (how Kani prints a macro-built message) -> "C05.a@80" """
+    m = re.match(r'^\s*concat\s*!\s*\((.*)\)\s*$', d.strip())
+    if m:
+        parts = re.findall(r'"([^"]*)"', m.group(1))
+        return '"' + "".join(parts) + '"'
+    return d
+
+
 def fail_key(f):
     """Role key of a failed check: the tag of a harness assertion, or
     category:description@function for a check inside the real code."""
-    d = f["description"]
-    m = re.match(r'^"?(C\d\d[A-Za-z0-9_.\-]*)"?$', d.strip())
+    d = norm_desc(f["description"])
+    m = re.match(r'^"?(C\d\d[A-Za-z0-9_.\-@]*)"?$', d.strip())
     if m:
         return m.group(1)
     fn = f["function"]
@@ -205,12 +216,13 @@ def extract_playback_tests(out):
 
 def kani_counterexample(mdir, g, harness, tier_cfgs=()):
     cmd = ["cargo", "kani", "-Z", "stubbing", "-Z", "unstable-options", "-Z", "concrete-playback",
-           "--concrete-playback=print", "--no-assertion-reach-checks", "--output-format", "terse", "--harness", harness, "--exact",
+           "--concrete-playback=print", "--no-assertion-reach-checks", "--harness", harness, "--exact",
            "--harness-timeout", f"{g.harness_timeout}s"]
     if g.features:
         cmd += ["--features", ",".join(g.features)]
     env = {"RUSTFLAGS": rustflags(g.cfgs + list(tier_cfgs))}
-    rc, out, wall, to = run_cmd(cmd, mdir, env=env, timeout=g.harness_timeout + 600, mem_gb=g.mem_gb)
+    # trace generation needs far more memory than the verdict run: no address-space cap here, only the time-out
+    rc, out, wall, to = run_cmd(cmd, mdir, env=env, timeout=g.harness_timeout + 1800, mem_gb=None)
     return extract_playback_tests(out), out
 
 
